@@ -6,7 +6,7 @@ Extraction Language OCaml.
 Extraction "model.ml"
   N.add N.mul N.sub N.div N.modulo N.eqb N.ltb N.leb N.of_nat N.to_nat N.land N.shiftl N.shiftr
   alloc_init alloc release count_tag is_live stat_code
-  DEFAULT_CAPACITY MAX_POW_TWO wadd wsub wmul lenN getN
+  DEQUE_DEFAULT_CAPACITY MAX_POW_TWO wadd wsub wmul lenN getN
   upper_pow_two dq_new_conf dq_destroy dq_destroy_cb dq_remove_all_cb dq_copy_shallow dq_copy_deep dq_filter
   dq_contains_value dq_step dq_run spec_step spec_run ins del repl find_index count_eq
   add_at_branch add_at_branch_ok phys mask
